@@ -169,16 +169,63 @@ def encode(x: Any) -> Any:
     return x
 
 
+def _part(v: Any) -> tuple[str, Any]:
+    """What a multipart field value (as handed to httpx `files=`) denotes: ('text', str) | ('json', value) | ('file', bytes)."""
+    import json as _json
+
+    if isinstance(v, bytes):
+        return "text", v.decode()
+    if isinstance(v, str):
+        return "text", v
+    if isinstance(v, tuple) and len(v) == 3:
+        name, payload, mime = v
+        if hasattr(payload, "read"):
+            pos = payload.tell()
+            data = payload.read()
+            payload.seek(pos)
+            return "file", data
+        if isinstance(payload, (bytes, str)):
+            text = payload.decode() if isinstance(payload, bytes) else payload
+            if mime == "application/json":
+                return "json", _json.loads(text)
+            return "text", text
+    return "bad", v
+
+
+def _multipart_value_ok(v: Any, w: Any) -> bool:
+    """The part sent for a field denotes the wire value `w` of the document-derived instance: text parts carry the
+    textual form of scalars (dates / uuids / enum values as written on the wire), lists and objects travel as JSON
+    parts, binary properties as file parts with exactly the given bytes."""
+    kind, got = _part(v)
+    if kind == "bad":
+        return False
+    if isinstance(w, bytes):
+        return kind == "file" and got == w
+    if isinstance(w, (list, dict)):
+        return kind == "json" and got == w
+    if kind != "text":
+        return False
+    if w is None:
+        return got in ("None", "null", "")
+    if isinstance(w, bool):
+        return got.lower() == ("true" if w else "false")
+    if isinstance(w, int):
+        return got == str(w)
+    if isinstance(w, float):
+        try:
+            return float(got) == w
+        except ValueError:
+            return False
+    return got == w
+
+
 def _multipart_shape_ok(files: Any, wire: Any) -> bool:
     items = dict(files) if not isinstance(files, dict) else files
     if set(items.keys()) != set(wire.keys()):
         return False
-    for v in items.values():
-        if isinstance(v, (bytes, str)):
-            continue
-        if isinstance(v, tuple) and len(v) == 3:
-            continue
-        return False
+    for k, v in items.items():
+        if not _multipart_value_ok(v, wire[k]):
+            return False
     return True
 
 
